@@ -269,5 +269,25 @@ func VH_C08_restart_configs() {
 	// (with a single configuration entry and no snapshot the predecessor is the empty configuration of index 0, exactly
 	// as right after bootstrap)
 	vAssert(st.configs.Committed.Index <= st.configs.Latest.Index, "G4-committed-is-a-predecessor")
+	// the committed one is the configuration BEFORE the newest: the second newest configuration entry above the
+	// snapshot, else the snapshot label's (index 0 without a snapshot). A restarted node must not take its newest,
+	// possibly uncommitted, configuration entry for committed: reverting it after a truncation would be impossible.
+	second, label := uint64(0), uint64(0)
+	for k, kind := range n.kinds {
+		i := uint64(k) + 1
+		if kind == entryConfig && i <= st.snaps.index {
+			label = i
+		}
+		if kind == entryConfig && i > a2.prev && i <= a2.last() && i > st.snaps.index && i < newest {
+			second = i
+		}
+	}
+	if newest == 0 {
+		vAssert(st.configs.Committed.Index == st.configs.Latest.Index, "G4-committed-from-snapshot-label")
+	} else if second != 0 {
+		vAssert(st.configs.Committed.Index == second, "G4-committed-is-the-previous-config-entry")
+	} else {
+		vAssert(st.configs.Committed.Index == label, "G4-committed-is-the-snapshot-labels-config-when-one-entry-above")
+	}
 	vReach("end")
 }
